@@ -61,8 +61,19 @@ func NewEncoderFor[T any](w io.Writer, compression Compression, approxBlockSize 
 		w:      w,
 
 		approxBlockSize: approxBlockSize,
-		wb:              NewWriteBuf(make([]byte, 0, approxBlockSize)),
+		wb:              NewWriteBuf(make([]byte, 0, initialBufferSize(approxBlockSize))),
 	}, nil
+}
+
+// initialBufferSize is the capacity the encoder starts with. The block size is
+// a threshold for cutting blocks, not an amount of memory to set aside: a very
+// large value ("never cut a block for me") must not be allocated up front.
+func initialBufferSize(approxBlockSize int) int {
+	const limit = 1 << 20
+	if approxBlockSize < 0 || approxBlockSize > limit {
+		return limit
+	}
+	return approxBlockSize
 }
 
 // Encode writes a new row to the Avro file.
